@@ -163,6 +163,17 @@ def check_bs_case(c):
         tr2 = b2(x, knots=[float(fr(q)) for q in c["knots"]], degree=degree, intercept=intercept, **bounds)
         if not np.allclose(tr2, tr, atol=TOL):
             probs.append((dict({"clause": "bs_explicit_knots_differ_from_df"}, **sig), base))
+        # a long vector (the same values many times over, shuffled) with those knots and bounds: every row is a
+        # function of its own x only, so the exact rows of the short vector must come out, row by row
+        reps = 17 + len(x) % 5
+        order = np.random.RandomState(len(x) * 7 + degree).permutation(len(x) * reps)
+        xl = np.tile(x, reps)[order]
+        b3 = BSpline()
+        kw3 = dict(knots=[float(fr(q)) for q in c["knots"]], degree=degree, intercept=intercept,
+                   lower_bound=bounds.get("lower_bound", float(min(c["x"]))), upper_bound=bounds.get("upper_bound", float(max(c["x"]))))
+        tl = b3(xl, **kw3)
+        if np.asarray(tl).shape != (len(xl), np.asarray(tr2).shape[1]) or not np.allclose(tl, np.tile(np.asarray(tr2, dtype=float), (reps, 1))[order], atol=TOL):
+            probs.append((dict({"clause": "bs_long_vector_rows_differ_from_short_vector"}, **sig), dict(base, rows=int(len(xl)))))
         if np.asarray(tr).shape[1] != df:
             probs.append((dict({"clause": "bs_column_count"}, **sig), dict(base, got=int(np.asarray(tr).shape[1]))))
         if np.min(tr) < -TOL:
